@@ -389,7 +389,12 @@ fn execute<T: Composer>(pool: &[String], ops: &[Op], ctl: &SinkCtl, stream: bool
     ctl.failed.set(0);
     ctl.bytes.borrow_mut().clear();
     let sink = FaultySink { ctl: ctl.clone() };
-    let target = mk(sink)?; // no room even for the stream prefix
+    let target = match mk(sink) {
+        Some(t) => t,
+        // No room even for the stream prefix: nothing to check (`None` would
+        // read as "a violation was reported" and end the enumeration).
+        None => return Some(vec![]),
+    };
     let mb = match MessageBuilder::from_target(target) {
         Ok(mb) => mb,
         Err(_) => return Some(vec![]), // no room for the header: nothing to check
